@@ -702,13 +702,8 @@ PROPS["C04"] = dict(
              "floats: c04_value takes the hypothesis FloatsRoundTrip cfg ext v (for every Float in v, parsing the text ryu prints gives that "
              "Float back); it is discharged by C07 (float_roundtrip) / C08 (short literals), not here; c04_value_nofloat and c04_value_ap "
              "need no such hypothesis",
-             "c04_wf_of_parse_partial: every value returned by the parser satisfies WFValue — proved for byte sources (from_slice/"
-             "from_reader) under the hypothesis that the floats of the returned value are finite (c04_wf_of_parse_finite: or that the "
-             "configured conversion returns finite floats only — C07/C08's finiteness clause, a statement about Spec.Ieee rounding not "
-             "proved here); unconditional under arbitrary_precision (c04_wf_of_parse_ap); for &str input the same with the hypothesis that "
-             "the input is valid UTF-8, which the type &str guarantees (c04_wf_of_parse_str_partial / _str_finite / _str_ap, "
-             "c04_reparse_str_partial)",
-             "c04_reparse_partial (from_slice(to_vec(from_slice(bs))) = from_slice(bs)) inherits both float hypotheses"],
+             "c04_reparse: serialise-then-parse of a parsed value gives it back under the same float hypothesis FloatsRoundTrip (none "
+             "under arbitrary_precision: c04_reparse_ap); that parsed values are well-formed is now hypothesis-free (c04_wf_of_parse)"],
     technique="Lean 4 theorems obtained by composing the Value fragment of C03 (serializer output = one RFC 8259 value with syntax tree "
               "cstOf(image); re-proved layout-independently: the extracted formatter literals need only be their structural character plus "
               "JSON whitespace, so a harmless change of the pretty layout alarms C03 but not C04) with C01 "
@@ -718,12 +713,16 @@ PROPS["C04"] = dict(
     level_text="Machine-checked: c04_value / c04_value_pretty (for every build, source, well-formed Value v and whitespace indent: the model "
                "serializer's output parses back to exactly v, given that the float printer/parser pair returns the floats of v), "
                "c04_value_nofloat and c04_value_ap (no float hypothesis), c04_value_all_floats (global float hypothesis), with each clause "
-               "of the representation invariant shown necessary by a counterexample. The crate's to_string/to_vec/to_writer(+pretty) "
+               "of the representation invariant shown necessary by a counterexample; c04_wf_of_parse (whatever the parser returns, from any "
+               "source in any build, satisfies the representation invariant — for &str given that the input is valid UTF-8; the finiteness "
+               "of parsed floats is the theorem c04_parsed_floats_finite, from C08's c08_finite_signed through the parser link for the "
+               "default build and from roundNE64's range for float_roundtrip), hence c04_reparse / c04_reparse_ap (serialise-then-parse "
+               "of any parsed value gives it back, across sources and formatters). The crate's to_string/to_vec/to_writer(+pretty) "
                "followed by from_str/from_slice/from_reader is run on generated Values and compared both with the original and with the "
                "Lean round trip; typed data (derived types covering the serde data model) is round-tripped through the crate.",
     level_note="Trusted: Lean kernel + 3 standard axioms; extract.py; harness/driver; the serializer and parser models (tied by C03 and "
-               "C01/C02 correspondence); itoa/ryu as parameters. Partial: typed clause by correspondence only; float step is a named "
-               "hypothesis (C07/C08).",
+               "C01/C02 correspondence); itoa/ryu as parameters. Partial: typed clause by correspondence only; the float step of the round trip "
+               "(printed text reads back as the same double) is a named hypothesis (C07/C08); finiteness of parsed floats is proved.",
 )
 
 # properties not claimed yet (kept current as checks are added)
